@@ -192,6 +192,12 @@ def run(ctx):
         h = row[0]
         forms = [('str', s0.decode()), ('bytes', s0), ('hex-of-text:str', s0.hex()), ('0xhex-of-text:str', '0x' + s0.hex()),
                  ('hex-of-text:bytes', s0.hex().encode()), ('upper-hex-of-text:str', s0.hex().upper())]
+        # a `str` with characters outside ASCII (zero-width space, accented / full-width letters) inserted into, appended to or put in
+        # front of the valid text: a longer, different string — not an encoding of anything
+        t0 = s0.decode()
+        j = rng.randrange(1, len(t0))
+        forms += [('non-ascii-inserted:str', t0[:j] + rng.choice(['\u200b', 'é', '１', '\u00a0', '😀']) + t0[j:]),
+                  ('non-ascii-appended:str', t0 + rng.choice(['\u200b', 'é', '\ufeff'])), ('non-ascii-in-front:str', rng.choice(['\ufeff', '\u200b']) + t0)]
         for name in preds:
             if not any(s0.startswith(pp) for pp in INTENDED[name]):
                 continue
@@ -205,7 +211,7 @@ def run(ctx):
                 ctx.count('validator-argument-form', fname)
                 if got != want:
                     ctx.violation(f'validator:{name}:argument-form:{fname}',
-                                  f'{name}({arg!r}) = {got}, expected {want}: the argument is {"the valid " + h.decode() + " text" if fname in ("str", "bytes") else "the hex spelling of a text, not a Base58Check string"}',
+                                  f'{name}({arg!r}) = {got}, expected {want}: the argument is {"the valid " + h.decode() + " text" if fname in ("str", "bytes") else ("a string with non-ASCII characters added to a valid text" if fname.startswith("non-ascii") else "the hex spelling of a text") + ", not a Base58Check string"}',
                                   {'op': name, 'form': fname, 'argument': arg if isinstance(arg, str) else arg.decode('latin1'), 'got': got, 'expected': want})
 
     # ---- corruption stream ---------------------------------------------------------------------
